@@ -36,7 +36,8 @@ Inductive term : Type :=
 | TStr (s : text)
 | TFun (f : text) (args : list term).
 
-Definition fscale : Z := 2 ^ 1074.
+(* 2^1074, written as a shift so that evaluating it is 1074 constructor steps *)
+Definition fscale : Z := Z.shiftl 1 1074.
 Arguments fscale : simpl never.
 
 Definition lex (c d : comparison) : comparison :=
@@ -123,6 +124,9 @@ Definition plg_cmp : term -> term -> comparison := std_cmp_gen true.
 Definition cmpZ (c : comparison) : Z :=
   match c with Lt => (-1)%Z | Eq => 0%Z | Gt => 1%Z end.
 
+Definition order_token (c : comparison) : text :=
+  match c with Lt => [39; 60; 39] | Eq => [39; 61; 39] | Gt => [39; 62; 39] end%N.
+
 Definition is_Lt (c : comparison) : bool := match c with Lt => true | _ => false end.
 Definition is_Eq (c : comparison) : bool := match c with Eq => true | _ => false end.
 Definition is_Gt (c : comparison) : bool := match c with Gt => true | _ => false end.
@@ -177,7 +181,7 @@ Fixpoint list_eqb (l m : list term) : bool :=
 (* domains *)
 Definition unquoted (f : text) : bool :=
   match f with c :: _ => negb (N.eqb c quote) | [] => true end.
-Definition int_bound : Z := 2 ^ 53.
+Definition int_bound : Z := Z.shiftl 1 53.
 Fixpoint names_unquoted (t : term) : bool :=
   match t with
   | TFun f xs => unquoted f && forallb names_unquoted xs
